@@ -39,7 +39,12 @@ def run_shard(spec):
     if spec['kind'] == 'e2e':
         for i in range(spec['cases']):
             rng = rng_for('C01e2e', spec['seed'], spec['shard'], i)
-            case = gen.pipeline_case(rng, CLASSES)
+            if rng.random() < 0.15:
+                case = gen.long_molecule_case(rng, nq=rng.randint(6, 12))
+                if rng.random() < 0.4:
+                    case['params'].update(d=rng.choice([800, 3000]), ms=rng.choice([500, 1000, 2000]), sj=rng.choice([0.0, 0.5, 1.0]))
+            else:
+                case = gen.pipeline_case(rng, CLASSES)
             case['kind'] = 'e2e'
             case['gen'] = [spec['seed'], spec['shard'], i]
             judge_e2e(case, spec['workdir'], sh, pool=(i < 2))
